@@ -694,6 +694,14 @@ func c17Unordered(c *run.Ctx, k int, wrapCounter bool) {
 
 // c17Restart stops and adopts with the pending range across the wrap.
 func c17Restart(c *run.Ctx) {
+	wrapRestart(c, [][]int{{1}, {2}, {1, 2}}[c.Rng.Intn(3)], c.Rng.Intn(4), "C17")
+}
+
+// wrapRestart really completes publishes up to just before the 14-bit
+// identifier wrap, lets a window of transfers go out across it (the first nrec
+// exactly-once ones get their PUBREC), and restarts on every stop point whose
+// pending range lies across the wrap.
+func wrapRestart(c *run.Ctx, levels []int, nrec int, props ...string) {
 	ep := newEpisode(c)
 	w := ep.W
 	defer w.Shutdown()
@@ -706,7 +714,6 @@ func c17Restart(c *run.Ctx) {
 	}
 	d := ep.D
 	d.StartReader()
-	levels := [][]int{{1}, {2}, {1, 2}}[c.Rng.Intn(3)]
 	// really complete publishes up to just before the wrap
 	var before [3]int
 	for _, lvl := range levels {
@@ -729,7 +736,7 @@ func c17Restart(c *run.Ctx) {
 	}
 	w.WaitIdle(sim.StepTimeout)
 	// a window across the wrap: the broker goes silent at a drawn stage per message
-	recs, nrec := 0, c.Rng.Intn(4)
+	recs := 0
 	w.Mu.Lock()
 	w.TakeSnaps = true
 	w.DataCap = 1 << 12
@@ -756,7 +763,7 @@ func c17Restart(c *run.Ctx) {
 	w.WaitIdle(sim.StepTimeout)
 	all := d.PubsSnapshot()
 	a := analyzePubs(ep, all, false)
-	reportPubs(c, ep, a, all, "C17")
+	reportPubs(c, ep, a, all, props...)
 	if !d.CloseAndWait() {
 		c.Spoiled()
 	}
